@@ -23,6 +23,7 @@ import (
 	"google.golang.org/protobuf/types/known/timestamppb"
 
 	"verif/sim/kernel"
+	"verif/sim/lockrt"
 	"verif/sim/oracle"
 )
 
@@ -151,6 +152,7 @@ func (op *c12Op) isPost() bool {
 func (op *c12Op) temporal() bool { return op.Kind == "t-add-chain" || op.Kind == "t-add-pre-chain" }
 
 type c12World struct {
+	pool    bool // spec C12lock: deterministic LIFO pools (lockstep build, runtime quiet)
 	s       *kernel.Sim
 	prof    c12Profile
 	pki     *pki
@@ -225,9 +227,30 @@ func endpointOf(path string) string {
 
 func newC12() kernel.World { return &c12World{} }
 
+// newC12Lock: spec C12lock - the C12 workload and oracle on the lockstep build of jsonclient / client, with the
+// runtime quiet (nobody parks at locks or statement boundaries: C12 is about what the peer sends, not about
+// interleavings). What the build contributes here: every sync.Pool of the two packages is a plain LIFO free list,
+// so an object put back by one call is handed to the very next one - whatever a call leaves behind in a pooled
+// buffer or structure meets the next answer deterministically - and map ranges run in key order.
+func newC12Lock() kernel.World { return &c12World{pool: true} }
+
+func c12LockSpecs(specs []kernel.Spec) []kernel.Spec {
+	if !lockrt.Enabled {
+		return specs
+	}
+	return append(specs, kernel.Spec{Prop: "C12lock", Mk: newC12Lock, Limits: kernel.Limits{MaxSteps: 200, SettleSteps: 120}})
+}
+
 func (w *c12World) Init(s *kernel.Sim) {
 	w.s = s
 	t := s.T
+	if w.pool && lockrt.Enabled && !s.Timed {
+		ls := kernel.NewLockstep(s, false)
+		ls.Quiet()
+		lockrt.Install(ls.RT)
+	} else {
+		lockrt.Install(nil)
+	}
 	p := &w.prof
 	// p384 is a key RFC 6962 does not allow: the client takes it only with ct.AllowVerificationWithNonCompliantKeys
 	p.LogKeyKind = []string{"p256", "rsa2048", "p256", "rsa2048", "p384"}[t.Intn(5)]
@@ -250,6 +273,11 @@ func (w *c12World) Init(s *kernel.Sim) {
 		}
 	}
 
+	if t.Chance(1, 4) {
+		// method focus: nearly every call of the run goes to one method, so that whatever that method keeps between
+		// calls (a memo, a pooled buffer, a cursor) sees a long sequence of good, bad and odd answers in a row
+		p.KindW[t.Intn(len(c12Kinds))] = 40
+	}
 	p.KeyForm = []string{"der", "pem", "both"}[t.Intn(3)]
 	p.Slash = t.Chance(1, 3)
 	p.Agent = t.Chance(1, 3)
